@@ -843,7 +843,13 @@ class WindowOp:
         da = _da()
         v = da.sliding_window_view(ins[0], a["w"], axis=a["axis"])
         if "reduce" in a:
-            return getattr(v, a["reduce"])(axis=-1)
+            y = getattr(v, a["reduce"])(axis=-1)
+            if a.get("ablate"):
+                # known-finding ablation (F21): same shape and dtype, no sliding-window machinery
+                x = ins[0]
+                ax = a["axis"] % x.ndim
+                return x[(slice(None),) * ax + (slice(0, x.shape[ax] - a["w"] + 1),)].astype(y.dtype)
+            return y
         return v
 
 
